@@ -493,10 +493,10 @@ pub fn run(ctx: &Ctx, stats: &mut Stats) {
     let n1b = ctx.tier.pick(600, 20_000);
     run_prop(ctx, stats, "codec-large", n1b, catalog_strategy(130, 400), &check_codec);
     let c2 = ctx.clone();
-    let n2 = ctx.tier.pick(96, 1_500);
+    let n2 = ctx.tier.pick(160, 3_000);
     run_prop(ctx, stats, "batches", n2, catalog_strategy(130, 12), &move |c: &Catalog| check_batches(&c2, c));
     let c3 = ctx.clone();
-    let n3 = ctx.tier.pick(64, 3_000);
+    let n3 = ctx.tier.pick(192, 6_000);
     let cfg = GenCfg { max_contig: 3000, max_samples: 5, many_samples_pct: 10, single_file: None, vary_presentation: false };
     run_prop(ctx, stats, "end-to-end", n3, gen::collection_strategy(cfg), &move |c: &Collection| check_e2e(&c3, c));
 }
